@@ -35,7 +35,9 @@ logging.disable(logging.CRITICAL)
 
 APP = 'foo.bar#0000000001'
 OTHER = 'foo.bar#0000000002'
-HOSTS = ('hostx', 'hosty')
+# one name is a proper string prefix of the other (node1 / node10): an
+# ownership test by prefix / substring instead of equality must show up
+HOSTS = ('node1', 'node10')
 KINDS = ('running', 'endpoints', 'identity')
 OPS = [(v, k, h) for h in (0, 1) for v in ('register', 'unregister')
        for k in KINDS]
@@ -216,8 +218,8 @@ def ep_worker(chunk):
 
 
 # ---------------------------------------------------------------------------
-THIS = 'hostx'
-ELSE = 'hosty'
+THIS = 'node1'
+ELSE = 'node10'
 VARIANTS = ('direct', 'finished', 'killed', 'aborted', 'running')
 
 
